@@ -215,11 +215,43 @@ def ev_call(eng, node, st):
                     raise Unsupported("type(x)(v) for %r" % (x.ty,))
                 outs += hook(eng, s, x, v)
         return outs
+    if isinstance(fn, ast.Name) and fn.id == "list" and len(node.args) == 1 and not node.keywords:
+        r = list_map_pattern(eng, node.args[0], st)
+        if r is not None:
+            return r
     if isinstance(fn, ast.Name):
         return call_name(eng, node, fn.id, st)
     if isinstance(fn, ast.Attribute):
         return call_attr(eng, node, fn, st)
     raise Unsupported("call of %s" % type(fn).__name__)
+
+
+def list_map_pattern(eng, m, st):
+    """list(map(lambda x, y: x + y, A, B)) / (x - y): the elementwise sum / difference of two int sequences, as long as the
+    shorter one (map stops there).  Anything else: None (not this pattern)."""
+    if not (isinstance(m, ast.Call) and isinstance(m.func, ast.Name) and m.func.id == "map" and len(m.args) == 3 and not m.keywords):
+        return None
+    lam = m.args[0]
+    if not (isinstance(lam, ast.Lambda) and len(lam.args.args) == 2 and isinstance(lam.body, ast.BinOp)
+            and isinstance(lam.body.op, (ast.Add, ast.Sub)) and isinstance(lam.body.left, ast.Name) and isinstance(lam.body.right, ast.Name)
+            and [lam.body.left.id, lam.body.right.id] == [a.arg for a in lam.args.args]):
+        return None
+    sign = 1 if isinstance(lam.body.op, ast.Add) else -1
+    outs = []
+    for s, vals in eng.ev_seq([m.args[1], m.args[2]], st):
+        if isinstance(vals, Raise):
+            outs.append((s, vals))
+            continue
+        a, b = vals
+        if not (a.ty.kind == "seq" and b.ty.kind == "seq" and a.ty.elem.kind == "int" and b.ty.elem.kind == "int"):
+            raise Unsupported("list(map(lambda ...)) over %r, %r" % (a.ty, b.ty))
+        r = S.fresh("mapped", S.sort_of(a.ty))
+        i = z3.Int("lm_i")
+        n = z3.If(z3.Length(a.t) <= z3.Length(b.t), z3.Length(a.t), z3.Length(b.t))
+        s.assume(z3.Length(r) == n)
+        s.assume(z3.ForAll([i], z3.Implies(z3.And(0 <= i, i < n), r[i] == a.t[i] + sign * b.t[i]), patterns=[r[i]]))
+        outs.append((s, SV(a.ty, r, const="fresh")))
+    return outs
 
 
 def eval_args(eng, node, st):
@@ -264,6 +296,9 @@ def call_name(eng, node, name, st):
         v = eng.spec_eval(node.args[0], st)
         st.assume(v)
         return [(st, mk_none())]
+    if name == "issubclass" and eng.reg.specfuns.get("issubclass_of") and isinstance(node.args[1], ast.Name):
+        return with_args(eng, ast.Call(func=node.func, args=[node.args[0]], keywords=[]), st,
+                         lambda s, a, k: [(s, eng.reg.specfuns["issubclass_of"](eng, a[0], node.args[1].id))])
     if name == "isinstance" or name == "issubclass":
         return with_args(eng, ast.Call(func=node.func, args=[node.args[0]], keywords=[]), st,
                          lambda s, a, k: [(s, mk_bool(isinstance_multi(eng, a[0], node.args[1], s, name)))])
@@ -477,6 +512,8 @@ def _sb_sqrt(eng, st, x):
 
 
 def _sb_typeis(eng, st, x, c):
+    if x.ty.kind == "obj":
+        return mk_bool(z3.And(PyObj.is_O_ref(x.t), S.typeof(PyObj.rval(x.t)) == eng.class_id(c.const)))
     return mk_bool(S.typeof(x.t) == eng.class_id(c.const))
 
 
@@ -912,14 +949,18 @@ def b_float(eng, s, a, k, node):
     if kd in ("real", "xreal"):
         return [(s, v)]
     if kd == "obj" and "Quantity" in eng.table.classes and eng.reg.specfuns.get("quantity_float"):
-        goal = z3.And(PyObj.is_O_ref(v.t), eng.isinstance_ref(PyObj.rval(v.t), "Quantity"))
-        if eng.prover.quick(s.pc, goal) == "proved":
-            return [(s, eng.reg.specfuns["quantity_float"](eng, SV(REF("Quantity"), PyObj.rval(v.t)), s))]
+        for cname in ("Quantity", "SI"):
+            if cname not in eng.table.classes:
+                continue
+            goal = z3.And(PyObj.is_O_ref(v.t), eng.isinstance_ref(PyObj.rval(v.t), cname))
+            if eng.prover.quick(s.pc, goal) == "proved" or \
+                    eng.prover.check(s.pc, goal, want_model=False, timeout_ms=2000, cli=False)[0] == "proved":
+                return [(s, eng.reg.specfuns["quantity_float"](eng, SV(REF(cname), PyObj.rval(v.t)), s))]
     if kd == "obj":
         return eng.implicit(s, "TypeError", z3.Not(z3.Or(eng.is_numeric_obj(v), PyObj.is_O_str(v.t))),
                             lambda s2: eng.implicit(s2, "ValueError", PyObj.is_O_str(v.t),
                                                     lambda s3: [(s3, SV(XREAL, S.to_xr(v)))]))
-    if kd == "ref" and eng.table.is_subclass(v.ty.cls, "Quantity"):
+    if kd == "ref" and (eng.table.is_subclass(v.ty.cls, "Quantity") or v.ty.cls == "SI"):
         fn = eng.reg.specfuns.get("quantity_float")
         if fn:
             return [(s, fn(eng, v, s))]
@@ -1063,6 +1104,8 @@ def b_type(eng, s, a, k, node):
     v = a[0]
     if v.ty.kind == "ref":
         return [(s, SV(Ty("type"), S.typeof(v.t)))]
+    if v.ty.kind == "type":
+        return [(s, SV(Ty("type"), z3.IntVal(-7)))]      # the class of class objects
     fn = eng.reg.specfuns.get("type_of_value")
     if fn:
         return [(s, fn(eng, v))]
@@ -1227,6 +1270,11 @@ def method_call2(eng, lv, recv, name, args, kwargs, s, node):
             return dispatch(eng, static, name, recv, s,
                             lambda fn, rv, s2: call_function(eng, fn, rv, args, kwargs, s2, rv.ty.cls, False))
         return call_function(eng, f, recv, args, kwargs, s, static, False)
+    if k == "type":
+        hook = eng.reg.specfuns.get("typemethod_" + name)
+        if hook:
+            return hook(eng, s, recv, args, kwargs)
+        raise Unsupported("method %s on a class object" % name)
     if k == "optseq":
         # Optional[list] (result of dict.get): a method call on None raises AttributeError
         has = recv.items[0]
